@@ -522,7 +522,8 @@ def run(ctx: Ctx, repo: Repo, tier: str) -> None:
     ctx.trust("libcst: ImportItem identity is (module_name, obj_name, alias, relative); GatherImportsVisitor.symbol_mapping maps each imported symbol to its ImportItem; "
               "ImportAlias.evaluated_name / evaluated_alias are the dotted name and the alias; leave_* returning RemoveFromParent() deletes the statement",
               "class bodies (`class X(TypedDict)`) are evaluated when the module is imported, so their base class must be imported at runtime")
-    rule_identity(ctx, repo)
-    rule_exempt(ctx, repo)
-    rule_split(ctx, repo)
-    rule_cli(ctx, repo)
+    ctx.attempt(rule_identity, ctx, repo)
+    ctx.attempt(rule_exempt, ctx, repo)
+    ctx.attempt(rule_split, ctx, repo)
+    ctx.attempt(rule_cli, ctx, repo)
+    ctx.settle()
